@@ -30,47 +30,23 @@ ASSUMPTIONS = ["creation operators are written `<op>.dag` in the basis literals"
 
 
 def check_sort(prog, ctx):
+    from rules.c04_order import find_sort_loop
+
     rid = "R18.1"
-    f = prog.func("symmray.fermionic_local_operators:build_local_fermionic_elements")
-    # the adjacent-compare loop
-    loops = [n for n in ast.walk(f.node) if isinstance(n, ast.For) and "range(len(" in src(n.iter) and "- 1" in src(n.iter)]
-    ctx.need(len(loops) == 1, "build_local_fermionic_elements: adjacent-pair loop not found (sort rewritten: re-derive R18.1)")
-    lp = loops[0]
-    k = src(lp.target)
-    loads = {}
-    for s in lp.body:
-        if isinstance(s, ast.Assign) and isinstance(s.value, ast.Subscript) and isinstance(s.targets[0], ast.Name):
-            loads[s.targets[0].id] = (src(s.value.value), src(s.value.slice))
-    ctx.need(len(loads) == 2 and len({v[0] for v in loads.values()}) == 1, "build_local_fermionic_elements: adjacent loads not found")
-    seq = next(iter(loads.values()))[0]
-    lo = [n for n, v in loads.items() if v[1] == k][0]
-    hi = [n for n, v in loads.items() if v[1] == f"{k} + 1"][0]
-    # phase variable: multiplied into the entry
-    acc = [a for a in ast.walk(f.node) if isinstance(a, ast.Assign) and isinstance(a.targets[0], ast.Subscript)
-           and src(a.targets[0].value) == "entries"]
-    ctx.need(len(acc) == 1, "build_local_fermionic_elements: accumulation into `entries` not found")
-    v = acc[0].value
-    ok = isinstance(v, ast.BinOp) and isinstance(v.op, ast.Add) and isinstance(v.right, ast.BinOp) and isinstance(v.right.op, ast.Mult) \
-        and src(v.left) == f"entries.get({src(acc[0].targets[0].slice)}, 0.0)"
-    ctx.check(ok, rid, f, acc[0], src(acc[0]), "an element accumulates (sums) the contributions of all terms at its position")
-    # the phase variable is the one negated inside the sort loop
+    hits = find_sort_loop(prog, "symmray.fermionic_local_operators", ast.For)
+    ctx.need(len(hits) == 1, f"the phased operator sort (adjacent compare loop over labels) was found {len(hits)} times "
+             "(sort rewritten: re-derive R18.1)")
+    f, lp, seq, lo, hi, k, k1, loadnames = hits[0]
     negs = [a for a in ast.walk(lp) if isinstance(a, ast.Assign) and isinstance(a.value, ast.UnaryOp) and isinstance(a.value.op, ast.USub)
             and src(a.value.operand) == src(a.targets[0])]
-    phase = src(negs[0].targets[0]) if negs else None
-    if phase is None:
-        inits = [a for a in ast.walk(f.node) if isinstance(a, ast.Assign) and src(a.value) == "1" and isinstance(a.targets[0], ast.Name)]
-        phase = src(inits[0].targets[0]) if inits else "phase"
-    if ok:
-        names = sorted([src(v.right.left), src(v.right.right)])
-        ctx.check(names == sorted(["coeff", phase]), rid, f, acc[0], src(v.right), "each contribution is the term's coefficient times the sort's phase")
-    else:
-        ctx.check(False, rid, f, acc[0], src(acc[0]), "each contribution is the term's coefficient times the sort's phase, added to the entry")
-    rest = [s for s in lp.body if not (isinstance(s, ast.Assign) and isinstance(s.targets[0], ast.Name) and s.targets[0].id in loads)]
+    phase = src(negs[0].targets[0]) if negs else "phase"
+    rest = [s for s in lp.body if not (isinstance(s, ast.Assign) and isinstance(s.targets[0], ast.Name) and s.targets[0].id in loadnames)]
     nswap = nnoop = 0
+    from engine.astutil import atom
     for (conds, stmts) in leaf_paths(rest):
         neg, stores, pops, raises, other = classify_path(stmts, seq, phase)
         desc = " and ".join(("" if v_ else "not ") + c for c, v_ in conds)
-        swapped = stores.get(k) == hi and stores.get(f"{k} + 1") == lo
+        swapped = stores.get(k) == hi and stores.get(k1) == lo
         if other:
             ctx.bad(rid, f, lp, f"path [{desc}]", "the phase is assigned something other than its own negation inside the sort")
         elif swapped:
@@ -78,7 +54,6 @@ def check_sort(prog, ctx):
             moved = any(isinstance(s, ast.Assign) and src(s.value) == "True" for s in stmts)
             ctx.check(neg == 1 and moved, rid, f, lp, f"swap path [{desc}]",
                       f"path [{desc}] exchanges two adjacent operators, negates the phase exactly once (found {neg}) and records the move")
-            from engine.astutil import atom
             cdn = {atom(ast.parse(k_, mode="eval").body): v_ for k_, v_ in conds}
             ctx.check(cdn.get(atom(ast.parse(f"{lo}.label > {hi}.label", mode="eval").body)) is True, rid, f, lp,
                       f"swap condition [{desc}]", "operators are exchanged only when the left label is strictly greater (labels only)")
@@ -88,25 +63,90 @@ def check_sort(prog, ctx):
             nnoop += 1
             ctx.check(neg == 0, rid, f, lp, f"no-op path [{desc}]", "a pair that is already ordered costs no sign")
     ctx.check(nswap == 1 and nnoop >= 1, rid, f, lp, f"paths swap={nswap} noop={nnoop}", "the sort has one exchange path and a no-op path")
-    # phase starts at +1 per term, outer loop repeats until no move
-    init = [a for a in ast.walk(f.node) if isinstance(a, ast.Assign) and src(a.targets[0]) == phase and src(a.value) == "1"]
-    ctx.check(len(init) == 1 and init[0].lineno < lp.lineno, rid, f, f.node, "phase init", "the phase starts at +1 for every (position, term)")
     wh = [n for n in ast.walk(f.node) if isinstance(n, ast.While) and any(x is lp for x in ast.walk(n))]
-    ctx.check(len(wh) == 1 and src(wh[0].test) == "any_moves", rid, f, f.node, "fixed point", "passes repeat until no exchange happened")
-    # sandwich order and index order
-    el = [a for a in ast.walk(f.node) if isinstance(a, ast.Assign) and src(a.targets[0]) == seq]
-    ctx.check(len(el) == 1 and src(el[0].value) == "[*left_basis_ops, *term, *right_basis_ops]", rid, f, f.node, "sandwich",
-              "the sorted string is <bra ops> term <ket ops>")
-    ctx.check(src(acc[0].targets[0].slice) == "index" and any(
-        isinstance(a, ast.Assign) and src(a.targets[0]) == "index" and src(a.value) == "(*left_indices, *right_indices)" for a in ast.walk(f.node)),
-        rid, f, f.node, "index", "the element position is (bra indices..., ket indices...)")
-    nv = [n for n in ast.walk(f.node) if isinstance(n, ast.If) and src(n.test) == "nonvanishing" and any(x is acc[0] for x in ast.walk(n))]
-    ctx.check(len(nv) == 1, rid, f, f.node, "vacuum test", "only non-vanishing vacuum patterns contribute")
-    nvd = [a for a in ast.walk(f.node) if isinstance(a, ast.Assign) and src(a.targets[0]) == "nonvanishing"]
-    ok = len(nvd) == 1 and "len(group) % 2 == 0" in src(nvd[0].value) and "not op.dual for op in group[::2]" in src(nvd[0].value) \
-        and "op.dual for op in group[1::2]" in src(nvd[0].value)
-    ctx.check(ok, rid, f, f.node, "vacuum pattern", "a label group survives iff it alternates annihilate/create starting from the vacuum on the right")
-    ctx.minimum(rid, 10, "sort paths, accumulation, sandwich, vacuum test")
+    ctx.check(len(wh) == 1, rid, f, f.node, "fixed point", "passes repeat (while loop) until no exchange happened")
+    ctx.minimum(rid, 4, "sort paths")
+
+
+def vev(ops):
+    """<0| o_1 ... o_n |0> for ops = [(label, creation?)], by the canonical anticommutation relations"""
+    occ = set()
+    sign = 1
+    for (lab, cre) in reversed(ops):
+        below = sum(1 for x in occ if x < lab)
+        if cre:
+            if lab in occ:
+                return 0
+            occ.add(lab)
+        else:
+            if lab not in occ:
+                return 0
+            occ.discard(lab)
+        if below % 2:
+            sign = -sign
+    return sign if not occ else 0
+
+
+def check_elements(prog, ctx, max_len):
+    """R18.4: abstract evaluation of build_local_fermionic_elements on every operator string up to `max_len` over small
+    mode sets, against the vacuum expectation value computed from the anticommutation relations."""
+    import itertools
+
+    from engine.minieval import Evaluator, Raised, Unsupported
+
+    rid = "R18.4"
+    f = prog.func("symmray.fermionic_local_operators:build_local_fermionic_elements")
+    setups = {
+        "two spinless sites": ([[(), (("a", "+"),)], [(), (("b", "+"),)]], ["a", "b"]),
+        "one spinful site": ([[(), (("ad", "+"),), (("au", "+"),), (("au", "+"), ("ad", "+"))]], ["ad", "au"]),
+    }
+    for name, (bases, labels) in setups.items():
+        alphabet = [(l, sgn) for l in labels for sgn in ("+", "-")]
+        bad = None
+        n = 0
+        for L in range(1, max_len + 1):
+            for term in itertools.product(alphabet, repeat=L):
+                ev = Evaluator(prog, max_steps=2000000)
+                try:
+                    got = ev.call(f, [[(1, list(term))], bases])
+                except Unsupported as e:
+                    raise AnalysisError(f"build_local_fermionic_elements outside the evaluable sub-language: {e}")
+                except Raised as e:
+                    bad = bad or f"term {term}: raised {e.what}"
+                    continue
+                n += 1
+                want = {}
+                for left in itertools.product(*[range(len(b)) for b in bases]):
+                    for right in itertools.product(*[range(len(b)) for b in bases]):
+                        ops = []
+                        for s_, i_ in enumerate(left):
+                            ops += [(lab, not (sg == "+")) for (lab, sg) in reversed(bases[s_][i_])]
+                        ops += [(lab, sg == "+") for (lab, sg) in term]
+                        for s_, i_ in enumerate(right):
+                            ops += [(lab, sg == "+") for (lab, sg) in bases[s_][i_]]
+                        v = vev(ops)
+                        if v:
+                            want[tuple(left) + tuple(right)] = v
+                gotnz = {k_: v_ for k_, v_ in got.items() if v_ != 0}
+                if gotnz != want:
+                    diff = sorted(set(gotnz.items()) ^ set(want.items()))[:3]
+                    bad = bad or f"term {''.join(l + s for l, s in term)}: elements differ from the vacuum expectation values at {diff}"
+        # contributions of several terms to one element add up, each with its own coefficient
+        for term in ([(labels[0], "+"), (labels[0], "-")], [(labels[-1], "-"), (labels[-1], "+")]):
+            ev = Evaluator(prog, max_steps=2000000)
+            one = ev.call(f, [[(1, list(term))], bases])
+            ev = Evaluator(prog, max_steps=2000000)
+            two = ev.call(f, [[(2, list(term)), (3, list(term))], bases])
+            if {k_: 5 * v_ for k_, v_ in one.items() if v_} != {k_: v_ for k_, v_ in two.items() if v_}:
+                bad = bad or f"terms 2*T + 3*T with T={term}: elements {two} are not 5 x {one}"
+            ev = Evaluator(prog, max_steps=2000000)
+            zero = ev.call(f, [[(0.0, list(term))], bases])
+            if any(v_ for v_ in zero.values()):
+                bad = bad or f"a term with coefficient 0 contributes {zero}"
+        ctx.check(bad is None, rid, f, f.node, f"elements ({name})",
+                  f"{name}: the elements of all {n} operator strings of length <= {max_len} equal the vacuum expectation values "
+                  "<0| bra-basis† term ket-basis |0> given by the anticommutation relations" + ("" if bad is None else f" — witness: {bad}"))
+    ctx.minimum(rid, 2, "two set-ups")
 
 
 def check_bra(prog, ctx):
@@ -248,8 +288,10 @@ def _check_map(ctx, rid, g, bname, states, maps):
 
 def run(prog, ctx):
     ctx.rule("R18.1", "phased bubble sort: adjacent exchange => exactly one sign; entry += phase * coeff under the vacuum-pattern test")
+    ctx.rule("R18.4", "exhaustive abstract evaluation: elements of every short operator string equal the vacuum expectation value from the CAR")
     ctx.rule("R18.2", "bra bases = per-site dagger of the same bases, same site order; dagger reverses and conjugates inside a state")
     ctx.rule("R18.3", "assembly: duals ket then bra, index maps doubled, fermionic; literal charge maps agree with the literal bases")
     check_sort(prog, ctx)
+    check_elements(prog, ctx, 4 if ctx.tier == "thorough" else 3)
     check_bra(prog, ctx)
     check_assembly(prog, ctx)
